@@ -10,11 +10,20 @@ def region(r, low=False):
     return 0x200000000000 + r.randrange(1, 1 << 14) * 0x40000000           # 1 GiB slots, far from everything else
 
 def gen(r, hid, mode=None, max_lifetimes=2):
-    mode = mode or r.choice(["straddle", "straddle", "neigh", "low", "hole", "hole_lo", "hole_hi", "edge", "edge", "full", "empty"])
+    mode = mode or r.choice(["straddle", "straddle", "neigh", "low", "hole", "hole_lo", "hole_hi", "edge", "edge", "full", "empty", "alias"])
+    if mode == "alias":
+        # the named function is a forwarding stub (jmp rel32) to its neighbour: only the STUB's entry may change
+        B = region(r); off = r.choice([0, 16, 256, 4064, 4080 - 16]); t = B + off; n = t + 16 * r.choice([1, 2, 3])
+        decl = [f"A={B:x}/2", f"J={t:x}/{n:x}", f"F={n:x}/bbb1", f"F={n + 16:x}/bbb2", "S"]
+        names = [f"t0@{t:x}", f"n0@{n:x}", f"n1@{n + 16:x}"]
+        ops = [f"I:t0:{r.choice(['raw', 'clo', 'fake', 'unc'])}:{r.randint(0, 3)}", "C:t0", "C:n0"]
+        lts = [ops]
+        return f"{hid} {','.join(decl + names + ['fk0', 'fk1', 'fk2', 'fk3'])} " + "|".join(",".join(o) for o in lts), lts
     low = mode == "low"
     B = region(r, low)
     off = r.choice(list(range(4080, 4096))) if mode in ("straddle", "edge") or r.random() < 0.4 else r.choice([0, 16, 1024, 4000, 4064])
     if mode in ("hole_lo", "hole_hi"): off = 0 if r.random() < 0.5 else off
+    if mode in ("hole_plusR", "hole_minusR"): off = 0        # page-aligned target: the page at exactly +-128 MiB is just outside the acceptance range
     t = B + off
     decl = [f"A={B:x}/2", f"F={t:x}/1111"]
     names = [f"t0@{t:x}"]
@@ -25,13 +34,15 @@ def gen(r, hid, mode=None, max_lifetimes=2):
     fake = None
     hole = None
     lo = max(0x10000, (t & ~0xfff) - R - 2 * PAGE); hi = (t & ~0xfff) + R + 3 * PAGE
-    if mode in ("hole", "hole_lo", "hole_hi", "edge", "full"):
+    if mode in ("hole", "hole_lo", "hole_hi", "edge", "full", "hole_plusR", "hole_minusR"):
         first = ((t - R) + PAGE) & ~0xfff                # lowest page-aligned address the allocator accepts (|d| < R)
         first = max(first, 0x10000)
         last = (t + R - 1) & ~0xfff
         if mode == "hole_lo": hole = first
         elif mode == "hole_hi": hole = last
         elif mode == "full": hole = 0
+        elif mode == "hole_plusR": hole = t + R
+        elif mode == "hole_minusR": hole = t - R
         else: hole = first + r.randrange(0, (last - first) // PAGE + 1) * PAGE
         if hole and B <= hole < B + 2 * PAGE: hole = B + 2 * PAGE
     if mode == "edge" and hole:
@@ -46,7 +57,8 @@ def gen(r, hid, mode=None, max_lifetimes=2):
     if hole is not None: decl.append(f"W={lo:x}/{hi:x}/{hole:x}")
     kinds = [f"I:t0:rawat:zf0"] if fake else [f"I:t0:{r.choice(['raw', 'clo', 'fake', 'unc'])}:{r.randint(0, 3)}"]
     ops = [kinds[0], "C:t0"]
-    if mode not in ("full",) and r.random() < 0.4: ops.append(f"I:t0:raw:{r.randint(0, 3)}")
-    lts = [ops] + ([[f"I:t0:raw:{r.randint(0,3)}"]] if r.random() < 0.3 and mode != "full" else [])
+    if mode in ("hole_plusR", "hole_minusR"): ops = [kinds[0]]       # the only free page is out of range: the installation must fail cleanly
+    if mode not in ("full", "hole_plusR", "hole_minusR") and r.random() < 0.4: ops.append(f"I:t0:raw:{r.randint(0, 3)}")
+    lts = [ops] + ([[f"I:t0:raw:{r.randint(0,3)}"]] if r.random() < 0.3 and mode not in ("full", "hole_plusR", "hole_minusR") else [])
     line = f"{hid} {','.join(decl + names + ['fk0', 'fk1', 'fk2', 'fk3'])} " + "|".join(",".join(o) for o in lts)
     return line, lts
